@@ -9,6 +9,7 @@
 #include "oracle.hpp"
 #include <chrono>
 #include <cstdio>
+#include <cstring>
 #include <fstream>
 #include <iostream>
 #include <set>
@@ -45,7 +46,34 @@ static void print_trace_window(const Desc& d, const World& real, const World& mo
     }
 }
 
+// a hard fault of the real code (SIGSEGV, SIGBUS, SIGFPE, SIGILL, abort) while a plan is executed: print that plan and leave
+// with exit code 79; the check turns it into a violation whose replay file is this plan (sanitizer builds report themselves)
+static char g_inflight[1 << 16];
+static size_t g_inflight_len = 0;
+static void set_inflight(const Plan& plan) {
+    std::string s = plan_to_json(plan).dump();
+    g_inflight_len = s.size() < sizeof g_inflight ? s.size() : 0;
+    memcpy(g_inflight, s.data(), g_inflight_len);
+}
+#ifndef SIM_ASAN
+#include <csignal>
+#include <unistd.h>
+static void on_fatal_signal(int) {
+    fflush(stdout);
+    ssize_t r = write(1, "\nCRASH ", 7); (void)r;
+    r = write(1, g_inflight, g_inflight_len); (void)r;
+    r = write(1, "\n", 1); (void)r;
+    _exit(79);
+}
+static void install_fatal_handlers() {
+    for (int sig : {SIGSEGV, SIGBUS, SIGFPE, SIGILL, SIGABRT}) signal(sig, on_fatal_signal);
+}
+#else
+static void install_fatal_handlers() {}
+#endif
+
 int main(int argc, char** argv) {
+    install_fatal_handlers();
     if (argc < 2) { fprintf(stderr, "usage: run|replay|dump|list ...\n"); return 2; }
     std::string cmd = argv[1];
     const Desc& d = desc();
@@ -84,6 +112,7 @@ int main(int argc, char** argv) {
                 FILE* tf = fopen(track.c_str(), "w");
                 if (tf) { fputs(plan_to_json(plan).dump().c_str(), tf); fputc('\n', tf); fclose(tf); }
             }
+            set_inflight(plan);
             Outcome oc = evaluate(d, *v, pf, plan, &st);
 #ifdef SIM_ASAN
             if (oc.verdict == V_OK && __lsan_do_recoverable_leak_check()) {
@@ -144,6 +173,7 @@ int main(int argc, char** argv) {
         for (long i = start; i < start + count; ++i) {
             Plan plan = generate_plan(d, *vs[i % vs.size()], pf, mix(seed, (uint64_t)i));
             plan.variant = list;
+            set_inflight(plan);
             Outcome oc = evaluate_diff(d, vs, pf, plan, mode, &st);
             if (oc.level == "IDS") {
                 if (ids_reported) continue;
@@ -189,6 +219,7 @@ int main(int argc, char** argv) {
         std::stringstream ss; ss << f.rdbuf();
         JV j = jparse(ss.str());
         Plan plan = plan_from_json(j.at("plan"));
+        set_inflight(plan);
         if (j.has("mode")) {
             std::vector<const Variant*> vs;
             std::string list = plan.variant;
